@@ -103,7 +103,12 @@ def run_case(spec):
             alt = alter(rng, base, how)
             I.reach("alteration." + ("absent" if how == "absent" else "all_nan" if how == "all_nan" else "other"))
             try:
-                got = fam.predict(copy.deepcopy(m), fam.reporting_data(alt))
+                alt_data = fam.reporting_data(alt)
+            except Exception:
+                I.reach("pair.altered_set_rejected_by_the_data_class")      # the data class's business (C10), no prediction to compare
+                continue
+            try:
+                got = fam.predict(copy.deepcopy(m), alt_data)
             except Exception as e:
                 add("predict-raised-on-altered-usage:%s:%s:%s" % (fam.kind, how, type(e).__name__),
                     "predict on the %s set with observed %s raised %s: %s" % (sname, how, type(e).__name__, str(e)[:160]), family=spec["family"], span=sname)
